@@ -3,3 +3,4 @@ pub mod pat;
 pub mod props;
 pub mod run;
 pub mod src;
+pub mod uni;
